@@ -619,6 +619,8 @@ fn call_strategy(replica: bool) -> BoxedStrategy<Call> {
         prop_oneof![
             5 => small_blk_strategy().prop_map(Call::Append),
             3 => prop::collection::vec(small_blk_strategy(), 0..4).prop_map(Call::Batch),
+            // more than 64 KiB in one batch (the oplog's flush threshold)
+            1 => (any::<u8>(), 2usize..4).prop_map(|(f, k)| Call::Batch((0..k).map(|i| Blk { len: 30_000 + 3_000 * i as u32, fill: f.wrapping_add(i as u8) }).collect())),
             3 => any::<u16>().prop_map(Call::Get),
             1 => any::<u16>().prop_map(Call::Has),
             1 => Just(Call::Info),
